@@ -18,11 +18,11 @@ class C07(Prop):
     level_text = ("Theorems for every layout and every start: under the line geometry (l complete lines of b bytes / r residues before the target line) seeking to doff + l*b [+ (start-1)%r] and skipping start - actual_start residues delivers the record's residues from residue `start` on, in the residue, line and brute-force addressing cases; "
                   "esl_ssi_FindSubseq's three cases are exactly that arithmetic; absent key => eslENOTFOUND, start outside 1..L => eslERANGE, for every file and index; the tracker's guarantee (every line followed by another terminated line has rpl residues) and two decide-checked counter-examples showing it does NOT bound last lines. "
                   "The executable model of PositionByKey/ByNumber/Fetch/FetchInfo/FetchSubseq/read_nres is tied to the working tree by an exact differential run against a real SSI index built by esl-sfetch's create_ssi_index, all (key,start,end) on small files, and a fetch = slice-of-sequential-scan monitor (incl. esl-sfetch's own subsequence path with reverse complement).")
-    level_note = ("FetchSubseq = slice of the scan is established by the differential run + monitor, not by a theorem about the whole reader. FASTA only (EMBL/GenBank not modelled); esl-afetch / Stockholm databases not covered; the SSI file itself is C06. "
+    level_note = ("FetchSubseq = slice of the scan is established by the differential run + monitor, not by a theorem about the whole reader. FASTA, EMBL/UniProt, GenBank/DDBJ (accessions as aliases); esl-afetch / Stockholm databases not covered; the SSI file itself is C06. "
                   "Known finding (genuine defect, repair not small): seebuf's bpl/rpl tracker accepts a last/only line longer than rpl, FetchSubseq then returns other residues with eslOK - witnesses in known_findings.d/C07.json, theorem carried as bplrpl_sound_partial + bplrpl_unsound_*.")
     assumptions = ["the SSI index returns what create_ssi_index stored (C06)", "fread returns min(B, remaining) bytes; allocation never fails",
                    "the model mirrors esl_sqio_ascii.c / esl_ssi_FindSubseq by hand; fidelity is checked by the differential run only",
-                   "EMBL/GenBank files, esl-afetch and esl_msafile_PositionByKey are outside the model"]
+                   "esl-afetch and esl_msafile_PositionByKey (alignment databases) are outside the model and the harness"]
     technique = ("Lean 4 proofs (offset arithmetic of esl_ssi_FindSubseq in its three addressing cases, soundness/unsoundness of the bytes/residues-per-line tracker, error cases) "
                  "+ exact differential correspondence of the executable model of PositionByKey/ByNumber/Fetch/FetchInfo/FetchSubseq/read_nres with the ASan/UBSan build, "
                  "against a real SSI index built by esl-sfetch's create_ssi_index, + fetch = slice-of-scan monitors")
@@ -66,24 +66,34 @@ class C07(Prop):
 
     def cases(self, ctx):
         rng = ctx.rng
-        n = 260 if ctx.tier == "quick" else 3000
+        n = 700 if ctx.tier == "quick" else 6000
         out = []
         for c in range(n):
             kind = rng.choice(["dna", "dna", "dna", "rna", "amino"])
             geometry = rng.choice(["const", "const", "const", "ragged"])
             small = rng.random() < 0.6
-            data, meta = S.gen_fasta(rng, ctx.tier, kind, geometry=geometry, nrec=rng.choice([1, 2, 3, 4]) if small else None,
-                                     maxlen=rng.choice([12, 30, 45]) if small and geometry == "const" else None)
+            fmt = "fasta"
+            if rng.random() < 0.2:
+                fmt = rng.choice(["embl", "uniprot", "genbank", "ddbj"])
+                kind = "amino" if fmt == "uniprot" else rng.choice(["dna", "rna"])
+                data, meta = S.gen_linebased(rng, fmt, kind, nrec=rng.choice([1, 2, 3]), tier=ctx.tier)
+            elif rng.random() < 0.4:
+                # constant geometry with 0..3 extra ignorable bytes per line (bpl - rpl in 1..5), every (start, end)
+                kind = rng.choice(["dna", "dna", "rna", "amino"])
+                data, meta = S.gen_fasta_layout(rng, kind, nrec=rng.choice([1, 2]))
+            else:
+                data, meta = S.gen_fasta(rng, ctx.tier, kind, geometry=geometry, nrec=rng.choice([1, 2, 3, 4]) if small else None,
+                                         maxlen=rng.choice([12, 30, 45]) if small and geometry == "const" else None)
             recs = meta["recs"]
             if not recs:
                 continue
             clean = S.is_clean(data)          # esl-sfetch's own fetch path exits the process on failure: only on files outside the known finding
-            ops = ["file ext=fa hex=" + hx(data)]
+            ops = ["file ext=dat hex=" + hx(data)]
             abc = rng.choice(["text", "text", kind])
             B = rng.choice(S.BSIZES + [rng.randrange(1, 40)])
             if len(data) > 6000 and B < 7:
                 B = 64
-            ops.append("open fmt=fasta abc=%s B=%d" % (abc, B))
+            ops.append("open fmt=%s abc=%s B=%d" % (fmt, abc, B))
             ops += ["read"] * (len(recs) + 1)
             ops.append("index")
             total = sum(len(r["seq"]) for r in recs)
@@ -91,14 +101,14 @@ class C07(Prop):
             for r in recs:
                 L = len(r["seq"])
                 k = hx(r["name"].encode())
-                if total <= 60:
-                    reqs += [(k, s, e) for s in range(1, L + 1) for e in range(s, L + 1)]
+                if total <= 60 or meta["geom"] == "layout":
+                    reqs += [(k, s, e) for s in range(1, L + 1) for e in sorted({s, min(L, s + 1), min(L, s + meta["width"]), L, rng.randrange(s, L + 1)})]
                 else:
                     w = meta["width"]
                     cand = sorted({x for x in (1, 2, w - 1, w, w + 1, 2 * w, 2 * w + 1, L - w, L - 1, L, L // 2, rng.randrange(1, L + 1) if L else 1, rng.randrange(1, L + 1) if L else 1) if 1 <= x <= L})
                     reqs += [(k, s, e) for s in cand for e in cand if s <= e]
             rng.shuffle(reqs)
-            for k, s, e in reqs[: (120 if total <= 60 else 40)]:
+            for k, s, e in reqs[: (160 if (total <= 60 or meta["geom"] == "layout") else 40)]:
                 r = rng.random()
                 if r < 0.8 or abc != "text" or not clean:
                     ops.append("fetchsub key=%s s=%d e=%d" % (k, s, e if rng.random() < 0.9 else 0))
@@ -114,6 +124,10 @@ class C07(Prop):
                 ops += ["poskey key=%s" % k, rng.choice(["read", "readinfo", "readseq"])]
                 bad = rng.choice([(0, 1), (L + 1, L + 1), (1, L + 1), (2, 1) if L >= 2 else (0, 0), (-3, 1), (L + 5, 0), (L, L + 2), (0, 0)])
                 ops.append("fetchsub key=%s s=%d e=%d" % ((k,) + bad))
+            for r in recs:
+                if r.get("acc"):
+                    ka = hx(r["acc"].encode())
+                    ops += ["fetch key=%s" % ka, "fetchsub key=%s s=1 e=%d" % (ka, min(5, len(r["seq"]))), "poskey key=%s" % ka, "readinfo"]
             ops += ["posnum n=%d" % rng.randrange(0, len(recs)), "read", "posnum n=%d" % len(recs)]
             for nm in ("", "nope", recs[0]["name"] + "x", recs[0]["name"][:-1] if len(recs[0]["name"]) > 1 else "q"):
                 if nm not in [r["name"] for r in recs]:
